@@ -845,6 +845,14 @@ PROBES = {
         "class PA {\nPUBLISHED:\n  PA();\n  static PA &gref();\n  int take(PA &other = PA::gref());\n  int get_v() const;\npublic:\n  int _v;\n};\n",
         "PA::PA() : _v(5) {}\nPA &PA::gref() { static PA x; return x; }\nint PA::take(PA &o) { return o._v; }\nint PA::get_v() const { return _v; }\n",
         {"m.PA().take()": ("5",), "m.PA().take(m.PA())": ("5",)}),
+    "C02-char-default-ignored": (
+        "class CH {\nPUBLISHED:\n  CH();\n  int f(char c = '\\n');\n  int h(int a, char c = 'x');\n};\n",
+        "CH::CH() {}\nint CH::f(char c) { return (int)c; }\nint CH::h(int a, char c) { return (int)c; }\n",
+        {"m.CH().f()": ("10",), "m.CH().h(1)": ("120",), "m.CH().f('a')": ("97",)}),
+    "C02-unpublished-scoped-enum-uncompilable": (
+        "enum class Mode { M_a = 1, M_b = 2 };\nclass EN {\nPUBLISHED:\n  EN();\n  Mode get_mode() const;\n};\n",
+        "EN::EN() {}\nMode EN::get_mode() const { return Mode::M_b; }\n",
+        {"int(m.EN().get_mode().value)": ("2",)}),
 }
 
 
@@ -979,7 +987,7 @@ def run_check(ctx):
     work = ctx.tmp
     t_start = time.time()
     from concurrent.futures import ThreadPoolExecutor
-    pool = ThreadPoolExecutor(max_workers=4)
+    pool = ThreadPoolExecutor(max_workers=7)
 
     # ---- side jobs that do not depend on the dispatch enumeration run in the background -------------
     def objects_job():
@@ -988,6 +996,13 @@ def run_check(ctx):
         hists = tlc.read_dump(dump)
         hists.sort(key=lambda r: json.dumps(r, sort_keys=True))
         return res, hists
+    def hobjects_job():
+        dump = os.path.join(work, "hobjects.ndjson")
+        res = tlc.run("PyObjectsHMC", "PyObjectsH_" + tier, workers=2, env={"VERIF_DUMP": dump}, timeout=1500)
+        hh = tlc.read_dump(dump)
+        hh.sort(key=lambda r: json.dumps(r, sort_keys=True))
+        return res, hh
+    f_hobj = pool.submit(hobjects_job)
     f_obj = pool.submit(objects_job)
     f_names = pool.submit(names_check, work)
     f_probes = [pool.submit(probe_module, (work, cid)) for cid in sorted(PROBES)]
@@ -1116,6 +1131,28 @@ def run_check(ctx):
         else:
             ctx.notes["asan"] = "no libasan.so found: ASan repetition skipped"
 
+    # ---- 4b. helper objects created by the runtime (PyObjectsH) ------------------------------------------
+    res, hh = f_hobj.result()
+    ctx.add_tlc(res)
+    if res.verdict == "invariant":
+        raise MachineryError("PyObjectsH: invariant %s violated by the reference model\n%s" % (res.violated, res.out[-2500:]))
+    tlc.must_ok(res)
+    n_hh_enumerated = len(hh)
+    n_hh = judge_hhistories(ctx, work, "c02h", list(enumerate(hh)), False, prec)
+    if not quick:
+        dump = os.path.join(work, "hobjects_sim.ndjson")
+        res = tlc.run("PyObjectsHMC", "PyObjectsH_sim", workers=1, env={"VERIF_DUMP": dump}, simulate=800, depth=24, timeout=1500)
+        ctx.add_tlc(res)
+        if res.verdict == "invariant":
+            raise MachineryError("PyObjectsH (simulation): invariant %s violated\n%s" % (res.violated, res.out[-2500:]))
+        tlc.must_ok(res)
+        sim = tlc.read_dump(dump)
+        sim.sort(key=lambda r: json.dumps(r, sort_keys=True))
+        n_hh += judge_hhistories(ctx, work, "c02hs", list(enumerate(sim)), False, prec)
+        if pymod.asan_runtime():
+            n_hh += judge_hhistories(ctx, work, "c02ha", list(enumerate(hh)), True, prec)
+    n_hist += n_hh
+
     # ---- 5. names, probes ----------------------------------------------------------------------------------
     try:
         bad, n_names, n_evals = f_names.result()
@@ -1145,7 +1182,8 @@ def run_check(ctx):
                        "wrapper); exhaustive only with respect to TLC, the replay is a selection")
     ctx.notes.update(sets_enumerated=n_sets_enumerated, sets_replayed=len(chosen), modules_built=len(batches) + 2 + len(PROBES),
                      calls_replayed=n_calls, calls_with_claim=n_claim, calls_compiled_natively=n_native,
-                     histories_enumerated=n_hist_enumerated, histories_replayed=n_hist, names_compared=n_names,
+                     histories_enumerated=n_hist_enumerated, histories_replayed=n_hist,
+                     helper_histories_enumerated=n_hh_enumerated, helper_histories_replayed=n_hh, names_compared=n_names,
                      name_evaluations=n_evals, finding_class_failed_of_members=prec,
                      syntactic_class_failed_of_members=coarse,
                      mechanism_model_mismatches=len(model_miss), mechanism_model_mismatch_examples=model_miss[:5])
@@ -1154,6 +1192,36 @@ def run_check(ctx):
         ctx.sample(dict(overloads=show_set(rec), call=show_call(c), expected=c["e"], overload=c["j"], cpp_types=c["ct"]))
     if hl:
         ctx.sample(dict(history=[[s["op"], s["w"], s["src"]] for s in hl[len(hl) // 2][1]["steps"]]))
+
+
+def judge_hhistories(ctx, work, name, hl, asan, prec):
+    r = helpers_batch((work, name, hl, asan))
+    if "build_error" in r:
+        ctx.violation("the object library with helper-creating properties does not build (%s): %s" % r["build_error"], dict(error=r["build_error"]))
+        return 0
+    show = lambda h: [[s["op"], s["a"], s["b"]] for s in h["steps"]]
+    if not r["finished"]:
+        at = r.get("last_at")
+        h = dict(hl).get(at[1]) if isinstance(at, list) and len(at) == 2 else None
+        ctx.violation("the interpreter died (%s)%s during the helper history %s" % (r["rc"], " under ASan" if asan else "", show(h) if h else at),
+                      dict(rc=r["rc"], at=at, stderr=r["stderr"][-2500:], asan=asan),
+                      classes=sorted(hclasses_of(h)) if h else [])
+    n = 0
+    for hid, h in hl:
+        o = r["obs"].get(hid)
+        if o is None:
+            continue
+        n += 1
+        bad = judge_hhistory(h, o)
+        failed = set(c for _, cls in bad for c in cls)
+        for c in hclasses_of(h):
+            prec.setdefault(c, [0, 0])
+            prec[c][1] += 1
+            prec[c][0] += c in failed
+        for b, cls in bad:
+            ctx.violation("helper history %s: %s" % (show(h), b), dict(history=h["steps"], observed=o, asan=asan, stat_key="helpers %s" % cls),
+                          classes=cls)
+    return n
 
 
 def judge_histories(ctx, work, name, hl, asan):
